@@ -62,10 +62,15 @@ class Ctx:
 
 
 def load_known():
-    if not os.path.exists(KNOWN):
-        return []
-    with open(KNOWN) as f:
-        return json.load(f)["findings"]
+    out = []
+    if os.path.exists(KNOWN):
+        with open(KNOWN) as f:
+            out.extend(json.load(f)["findings"])
+    import glob
+    for p in sorted(glob.glob(os.path.join(VERIF, "known_findings.d", "*.json"))):
+        with open(p) as f:
+            out.extend(json.load(f)["findings"])
+    return out
 
 
 def _validate(path):
